@@ -5,7 +5,7 @@
    assumed  : external library function; its contract is an assumption of the check (listed in the evidence)"""
 CUTS = {
     'brax.math:normalize': ('verified', 'C09/normalize/contract_{unit,nontiny,tiny,defined}[n=3,4]'),
-    'brax.math:safe_norm': ('uf/true', 'used as an uninterpreted function or arbitrary value; its own definedness is C03/safe_norm/jvp_defined'),
+    'brax.math:safe_norm': ('verified/uf', 'contract (tiny => 0; else n >= 0, n^2 = x.x) verified by C09/safe_norm/contract_{tiny,nontiny}; uninterpreted function in relational obligations; definedness C03/safe_norm/jvp_defined'),
     'brax.math:orthogonals': ('verified', 'C09/orthogonals/frame[y,z+,z-] + hint_any; callers quantify over EVERY orthonormal completion'),
     'brax.math:signed_angle': ('verified/uf', 'definition atan2(cross.axis, dot) is read off the real call arguments (C08); atan2 axiom trusted'),
     'brax.math:quat_rot_axis': ('uf', 'relational only (C06 positional limits_inert); its definition is C09/quat_rot_axis/unit_and_def'),
@@ -28,7 +28,7 @@ CUTS = {
     'jax.random:normal': ('assumed', 'arbitrary function of (key, shape)'), 'jax.random:randint': ('assumed', 'integers in [minval, maxval)'), 'jax.random:split': ('assumed', 'function of the key'),
     'jax.numpy.linalg:det': ('assumed', 'returns the determinant (cofactor expansion)'),
     'jax.scipy.linalg:solve': ('assumed', 'A X = B for invertible A'),
-    'mujoco.mjx:collision': ('assumed', 'true primitive distances for the world geom poses it is given (exercised by C10 bounded)'),
+    'mujoco.mjx:collision': ('verified/assumed', 'verified against the real mjx code for plane-sphere, sphere-sphere and plane-capsule pairs (C10/mjx.collision/*); assumed (exercised by C10 bounded) for sphere-capsule, capsule-capsule and all other geom types'),
     'jaxopt.ProjectedGradient': ('assumed', 'returns some vector (C06 force/inert holds for any)'),
     'havoc.step': ('true', 'arbitrary environment'), 'havoc.reset': ('true', 'arbitrary environment'), 'havoc.policy': ('true', 'arbitrary policy'),
 }
